@@ -59,7 +59,16 @@ def P(obj, path=()):
 
 
 def is_int(v):
-    return v[0] in ('c', 's', 'r', 'l', 'top')
+    return v[0] in ('c', 's', 'r', 'l', 'top', 'xk', 'ox')
+
+
+def pure_byte_sym(v, symr):
+    """Name of v if it is a single symbol whose range lies within a byte, else None."""
+    if v[0] == 'l' and v[1] == 0 and len(v[2]) == 1 and v[2][0][1] == 1:
+        r = symr.get(v[2][0][0])
+        if r is not None and 0 <= r[0] and r[1] <= 255:
+            return v[2][0][0]
+    return None
 
 
 def is_ptr(v):
@@ -105,6 +114,8 @@ def rng(v, symr, t=None):
         return (min(v[1]), max(v[1]))
     if k == 'r':
         return (v[1], v[2])
+    if k in ('xk', 'ox'):
+        return (0, 255)
     if k == 'l':
         lo = hi = v[1]
         for s, c in v[2]:
@@ -135,6 +146,9 @@ def fit(v, t, symr):
         return v
     if not is_int(v):
         return TOP
+    if k in ('xk', 'ox'):
+        tr = type_range(t)
+        return v if tr[0] <= 0 and tr[1] >= 255 else R(max(tr[0], 0), min(tr[1], 255))
     tr = type_range(t)
     r = rng(v, symr, None)
     if r is None:
@@ -157,6 +171,12 @@ def join(a, b, symr=None):
         return a
     symr = symr or {}
     if a[0] == 'uninit' or b[0] == 'uninit':
+        return TOP
+    if a[0] in ('xk', 'ox') or b[0] in ('xk', 'ox'):
+        if is_int(a) and is_int(b) and a != TOP and b != TOP:
+            ra, rb = rng(a, symr), rng(b, symr)
+            if ra and rb:
+                return R(min(ra[0], rb[0]), max(ra[1], rb[1]))
         return TOP
     if is_int(a) and is_int(b):
         if a[0] == 'top' or b[0] == 'top':
@@ -236,6 +256,26 @@ def binop(op, a, b, symr, t=None):
     """Integer binary operation on abstract values (before wrapping to type)."""
     if a[0] == 'uninit' or b[0] == 'uninit' or not is_int(a) or not is_int(b):
         return TOP
+    # byte-level terms: k ^ const ('xk') and OR of XORs of two byte symbols ('ox')
+    if op == '^':
+        pa_, pb_ = pure_byte_sym(a, symr), pure_byte_sym(b, symr)
+        if pa_ and b[0] == 'c' and 0 <= b[1] <= 255:
+            return ('xk', pa_, b[1]) if b[1] else a
+        if pb_ and a[0] == 'c' and 0 <= a[1] <= 255:
+            return ('xk', pb_, a[1]) if a[1] else b
+        if pa_ and pb_:
+            return ('ox', frozenset([tuple(sorted((pa_, pb_)))])) if pa_ != pb_ else C(0)
+    if op == '|':
+        if a[0] == 'ox' and b[0] == 'ox':
+            return ('ox', a[1] | b[1])
+        if a[0] == 'ox' and b == ('c', 0):
+            return a
+        if b[0] == 'ox' and a == ('c', 0):
+            return b
+    if a[0] in ('xk', 'ox') or b[0] in ('xk', 'ox'):
+        ra_, rb_ = rng(a, symr), rng(b, symr)
+        a = R(*ra_) if a[0] in ('xk', 'ox') else a
+        b = R(*rb_) if b[0] in ('xk', 'ox') else b
     if op == '+':
         return add(a, b, symr)
     if op == '-':
@@ -345,6 +385,13 @@ def compare(op, a, b, symr, t=None):
         return compare_ptr(op, a, b)
     if not is_int(a) or not is_int(b):
         return None
+    if a[0] in ('xk', 'ox') or b[0] in ('xk', 'ox'):
+        if a == b and op in ('==', '<=', '>='):
+            return True
+        if a == b and op in ('!=', '<', '>'):
+            return False
+        a = R(0, 255) if a[0] in ('xk', 'ox') else a
+        b = R(0, 255) if b[0] in ('xk', 'ox') else b
     d = add(a, b, symr, -1)
     r = rng(d, symr)
     if r is None:
@@ -425,6 +472,10 @@ def show(v):
         s = ' + '.join(('%d*%s' % (c, n) if c != 1 else n) for n, c in v[2])
         return s + (' + %d' % v[1] if v[1] else '')
     if k == 'p': return '&%s%s' % (v[1], ''.join('[%s]' % (show(x) if isinstance(x, tuple) else x) for x in v[2]))
+    if k == 'xk': return '(%s^0x%02x)' % (v[1], v[2])
+    if k == 'ox': return 'OR{' + ','.join('%s^%s' % p for p in sorted(v[1])) + '}'
+    if k == 'xk': return '(%s^0x%02x)' % (v[1], v[2])
+    if k == 'ox': return 'OR{' + ','.join('%s^%s' % p for p in sorted(v[1])) + '}'
     if k == 'top': return 'T'
     if k == 'null': return 'NULL'
     return str(v)
